@@ -423,13 +423,27 @@ def numeric_part(r, np, PanthLikelihood, tier, only=None):
         zp1 = np.array([1.0 + MAPS["A"][k] for k in (3, 1, 5, 2)], dtype=float)
         for fstr, p in (("square(a0)*(x*x*x+a1)", (1.3, 0.4)), ("a0*(x+exp(x))", (0.7,)), ("inv(a0)*(x+exp(x))", (2.0,)), ("a0*x*x*x+a1", (0.3, 0.7)), ("x+exp(x)", ())):
             nparam = len(p)
-            fcn, eq, flag = L.run_sympify(fstr, tmax=tmax, try_integration=False)
-            eq_num = lambdify_as_fit(sympy, (x, a0), fcn, eq, nparam)
-            L.clear_data()
-            mu_num = as_float_array(np, L.get_pred(zp1.copy(), np.array(p), eq_num, integrated=False))
-            fcn2, eq2, integrated = L.run_sympify(fstr, tmax=tmax, try_integration=True)
-            nev += 1
             key = "analytic_unintegrable:%s" % fstr
+            try:
+                fcn, eq, flag = L.run_sympify(fstr, tmax=tmax, try_integration=False)
+                eq_num = lambdify_as_fit(sympy, (x, a0), fcn, eq, nparam)
+                L.clear_data()
+                mu_num = as_float_array(np, L.get_pred(zp1.copy(), np.array(p), eq_num, integrated=False))
+                fcn2, eq2, integrated = L.run_sympify(fstr, tmax=tmax, try_integration=True)
+            except Exception as e:
+                r.violation(key, "H^2 = %s, unsorted sample %s: the numerical path raised %r" % (fstr, zp1.tolist(), e), {"kind": "numeric", "fstr": fstr})
+                continue
+            nev += 1
+            if not integrated:
+                # the fall-back: what comes back is H^2 itself, to be integrated numerically - the same prediction as without the attempt
+                try:
+                    L.clear_data()
+                    mu_fb = as_float_array(np, L.get_pred(zp1.copy(), np.array(p), lambdify_as_fit(sympy, (x, a0), fcn2, eq2, nparam), integrated=False))
+                    if not np.all(np.isfinite(mu_fb)) or float(np.max(np.abs(mu_fb - mu_num))) > 1e-9:
+                        r.violation(key + ":fallback", "H^2 = %s: after a failed analytic attempt run_sympify hands back %s (integrated=False), whose numerical prediction %s differs from the prediction without the attempt %s" % (
+                            fstr, eq2, mu_fb, mu_num), {"kind": "numeric", "fstr": fstr})
+                except Exception as e:
+                    r.violation(key + ":fallback", "H^2 = %s: after a failed analytic attempt the numerical path raised %r" % (fstr, e), {"kind": "numeric", "fstr": fstr})
             if integrated:
                 try:
                     eq_an = lambdify_as_fit(sympy, (x, a0), fcn2, eq2, nparam)
